@@ -1,10 +1,10 @@
 #!/bin/bash
-# usage: all_thorough.sh [ids...]   -- runs the thorough tier of each claimed property in turn, prints one line per property
+# usage: [THOROUGH_BUDGET=seconds] all_thorough.sh [ids...]   -- runs the thorough tier of each claimed property in turn, prints one line per property
 cd "$(dirname "$0")/.."
 ids=${@:-C01 C02 C04 C05 C06 C07 C10 C11 C15 C16 C18 C19 C03 C08 C09}
 for id in $ids; do
 	t0=$(date +%s)
-	./check $id --tier thorough > /tmp/thorough-$id.log 2>&1; rc=$?
+	./check $id --tier thorough ${THOROUGH_BUDGET:+--budget $THOROUGH_BUDGET} > /tmp/thorough-$id.log 2>&1; rc=$?
 	echo "THOROUGH $id exit=$rc $(( $(date +%s) - t0 ))s $(grep -E "^$id thorough" /tmp/thorough-$id.log | cut -c1-200)"
 	grep -E "VIOLATION|HARNESS-PROBLEM" /tmp/thorough-$id.log | cut -c1-300
 done
